@@ -275,3 +275,13 @@ Proof.
   induction d as [|e d IH]; [constructor|]. change (m_sort (e :: d)) with (m_insert e (m_sort d)). inversion Hnd; subst.
   apply insert_sorted; [auto|]. intros x Hx E. apply (proj1 (sort_in d x)) in Hx. match goal with Hn : ~ In _ _ |- _ => apply Hn end. rewrite <- E. apply in_map. exact Hx.
 Qed.
+
+(** Sorted maps exist, differ, and the ideal-hash diff reports the range. *)
+Example merkle_example :
+  ssorted [(1, 0); (2, 5); (4, 1)] /\ ssorted [(1, 0); (2, 6); (4, 1)] /\
+  d_get 2 [(1, 0); (2, 5); (4, 1)] <> d_get 2 [(1, 0); (2, 6); (4, 1)] /\
+  mi_diff (m_of [(1, 0); (2, 5); (4, 1)]) (m_of [(1, 0); (2, 6); (4, 1)]) = [(2, 2)].
+Proof.
+  repeat split; try (vm_compute; congruence); try (vm_compute; reflexivity);
+    repeat (constructor; try (unfold klt; cbn; lia)).
+Qed.
